@@ -28,6 +28,7 @@ RULE = ("per-member domain: absent | member_counter 0..2 x access_counter 0..2 x
         "200 random 2-member triples with conditions; "
         "thorough: ALL 37^3 triples without conditions, ALL 109^2 pairs with conditions x 3 random thirds, 600 + 600 random cases. "
         "non-trivial = some member present in two of the states with equal member counter")
+SEARCH_LIMIT = 1000
 NONTRIVIAL_FLOOR = 50
 
 LEVELS = (0, 1, 2, 3)
